@@ -269,6 +269,11 @@ func dirGen(g *genCtx) {
 		emit([]string{fmt.Sprintf("w:a.mtail:%d", v), "load", "l:x", "mv:a.mtail:c.mtail", "mkdir:a.mtail", "w:a.mtail/inner.mtail:0", "load", "l:y", "load", "l:x"})
 		emit([]string{"mkdir:a.mtail", "load", "l:x", "rm:a.mtail", fmt.Sprintf("w:a.mtail:%d", v), "load", "l:y"})
 	}
+	// a file written earlier is renamed over a running program written later, and the reverse:
+	// what runs afterwards is what the file says, whatever the files' times
+	emit([]string{"w:a.mtail:0", "w:c.mtail:7", "load", "l:x", "mv:a.mtail:c.mtail", "load", "l:y", "load", "l:x"})
+	emit([]string{"w:c.mtail:7", "w:a.mtail:0", "load", "l:x", "mv:a.mtail:c.mtail", "load", "l:y", "load", "l:x"})
+	emit([]string{"w:b.mtail:1", "w:a.mtail:0", "w:c.mtail:13", "load", "l:x", "mv:b.mtail:c.mtail", "load", "l:y", "mv:a.mtail:c.mtail", "load", "l:x"})
 	// several kind conflicts in one refused load
 	emit([]string{"w:a.mtail:13", "load", "l:x", "w:b.mtail:12", "load", "l:y", "load"})
 	emit([]string{"w:b.mtail:12", "load", "l:x", "w:a.mtail:13", "load", "l:y", "load"})
@@ -310,5 +315,24 @@ func dirGen(g *genCtx) {
 
 func init() {
 	props["C26"] = &propImpl{gen: dirGen, run: dirRun("C26")}
-	props["C25"] = &propImpl{gen: dirGen, run: dirRun("C25")}
+	// C25 also counts lines per log: one-shot runs over files with and without a final newline
+	// (the C19 machinery, whose observation includes lines_total and log_lines_total per file)
+	c25Dir := dirRun("C25")
+	props["C25"] = &propImpl{
+		gen: func(g *genCtx) {
+			dirGen(g)
+			for _, fs := range []string{"3/1", "3/0", "1/0", "0/1", "5/1,4/0", "2/0,2/0,1/1", "40/0"} {
+				for _, ps := range []string{"w", "w,g"} {
+					g.emit("os", "4", ps, fs)
+				}
+			}
+		},
+		run: func(r *runCtx, id string, f []string) {
+			if f[0] == "os" {
+				c19Run(r, id, f)
+				return
+			}
+			c25Dir(r, id, f)
+		},
+	}
 }
